@@ -46,6 +46,28 @@ Section SkipExact.
     intros t Ht. apply Hs.
     rewrite forallb_forall in E. apply E. apply in_seq. lia.
   Qed.
+
+  (* the Isomap stage WITHOUT the symmetrisation of F23 (isomap_matrix_pre_f23) is equivariant as well:
+     a tree that drops `(S + S^T)/2` changes the embedding (C04's business) but none of C12's relations *)
+  Theorem isomap_pre_f23_perm n p q (G : mat F) :
+    is_bij n p q -> meq n n (isomap_matrix_pre_f23 n (pact q G)) (pact q (isomap_matrix_pre_f23 n G)).
+  Proof.
+    intros Hb i j Hi Hj. unfold isomap_matrix_pre_f23.
+    change (geo_sq (pact q G)) with (pact q (geo_sq G)).
+    rewrite (center_matrix_perm n p q) by assumption. reflexivity.
+  Qed.
+
+  Theorem isomap_pre_f23_scale n c (G : mat F) :
+    of_nat n <> 0 ->
+    meq n n (isomap_matrix_pre_f23 n (mscale c G)) (mscale (c * c) (isomap_matrix_pre_f23 n G)).
+  Proof.
+    intros Hn i j Hi Hj. unfold isomap_matrix_pre_f23.
+    rewrite (center_matrix_meq n _ (mscale (c * c) (geo_sq G))).
+    - rewrite center_matrix_scale by assumption. unfold mscale. ring.
+    - intros a b _ _. unfold geo_sq, mscale. ring.
+    - exact Hi.
+    - exact Hj.
+  Qed.
 End SkipExact.
 
 Require Import ZArith QArith Qcanon Qabs.
